@@ -24,6 +24,7 @@ import (
 	"errors"
 	"net/http"
 	"net/url"
+	"strconv"
 	"strings"
 	"time"
 
@@ -568,10 +569,25 @@ func (a *jwtAuthenticator) verifyTokenWithKey(
 }
 
 func (a *jwtAuthenticator) calculateCacheKey(ep *endpoint.Endpoint, renderedURL, reference string) string {
+	// the parts are of variable length. Without a separator different combinations
+	// of them (e.g. of the url and the key id) would result in the same cache key
+	separator := []byte{0}
+
 	digest := sha256.New()
 	digest.Write(ep.Hash())
+	digest.Write(separator)
 	digest.Write(stringx.ToBytes(renderedURL))
+	digest.Write(separator)
 	digest.Write(stringx.ToBytes(reference))
+	digest.Write(separator)
+
+	// a key is validated before it is cached. So, authenticators making use of
+	// the same endpoint, but different validation settings must not share the entries
+	digest.Write(strconv.AppendBool(nil, a.validateJWKCert))
+
+	for _, cert := range a.trustStore {
+		digest.Write(cert.Raw)
+	}
 
 	return hex.EncodeToString(digest.Sum(nil))
 }
